@@ -467,7 +467,7 @@ def roi_shape(roi: NdROI) -> Tuple[int, ...]:
     """
 
     def slice_dim(s: SomeSlice) -> int:
-        if isinstance(s, int):
+        if not isinstance(s, slice):  # int, numpy integers
             return 1
         _out = s.stop
         if _out is None:
@@ -505,7 +505,7 @@ def roi_is_full(roi: NdROI, shape: Union[int, Tuple[int, ...]]) -> bool:
     """
 
     def slice_full(s: SomeSlice, n: int) -> bool:
-        if isinstance(s, int):
+        if not isinstance(s, slice):  # int, numpy integers
             return n == 1
         s = _norm_slice(s, n)  # resolve open ends and negative offsets
         return (s.start, s.stop) == (0, n)
@@ -524,9 +524,9 @@ def _fill_if_none(x: Optional[T], val_if_none: T) -> T:
 
 
 def _norm_slice_or_error(s: SomeSlice) -> NormalizedSlice:
-    if isinstance(s, int):
-        start = s
-        stop = s + 1
+    if not isinstance(s, slice):
+        start = operator.index(s)  # int, numpy integers
+        stop = start + 1
         step = None
     else:
         start = _fill_if_none(s.start, 0)
